@@ -499,6 +499,126 @@ Definition handover (n : node) : bool :=
                                (st_last_vals (n_state n))
   else true.
 
+(* ================================================================== the hand-over itself
+   consensus/state.go    NewState (the part before the service is built), reconstructLastCommit,
+                         updateToState
+   consensus/reactor.go  Reactor.SwitchToConsensus, up to conS.Start()
+   node/node.go builds the consensus State with the state and block store the node has at start
+   ([new_state]); blockchain/v0 poolRoutine calls conR.SwitchToConsensus(state, _) with the state
+   after the last ApplyBlock once the pool is caught up ([switch_to_consensus]).
+   [ih] is GenesisDoc.InitialHeight (State.InitialHeight: constant along a chain; updateToState
+   reads it once from cs.state and once from its argument).  None = panic.
+   Not modelled: WAL, timers, event bus, metrics, conS.Start(). *)
+
+(* the fields of consensus.State read or written before the state machine runs *)
+Record cstate := {
+  cs_height : Z;                       (* RoundState.Height *)
+  cs_commit_round : Z;                 (* RoundState.CommitRound *)
+  cs_votes : option voteset;           (* None: cs.Votes == nil; Some v: v = cs.Votes.Precommits(cs.CommitRound)
+                                          (the empty vote set when that round has none) *)
+  cs_last_commit : option voteset;     (* RoundState.LastCommit, None = nil *)
+  cs_state : option sstate             (* cs.state, None = IsEmpty() *)
+}.
+
+(* the Go zero value NewState starts from *)
+Definition cs_zero : cstate :=
+  {| cs_height := 0; cs_commit_round := 0; cs_votes := None; cs_last_commit := None; cs_state := None |}.
+
+(* reconstructLastCommit: the vote set it assigns to cs.LastCommit; None = panics *)
+Definition reconstruct_vs (chain : Z) (seen : option (commit sig)) (last_vals : list validator) : option voteset :=
+  match seen with
+  | None => None                                               (* seen commit not found *)
+  | Some c =>
+    match commit_to_voteset chain c last_vals with
+    | None => None
+    | Some vs => match vs_maj23 vs with Some _ => Some vs | None => None end   (* HasTwoThirdsMajority *)
+    end
+  end.
+
+Definition cs_reconstruct (store : list sentry) (cs : cstate) (st : sstate) : option cstate :=
+  match reconstruct_vs (st_chain st) (load_seen store (st_height st)) (st_last_vals st) with
+  | None => None
+  | Some vs =>
+    Some {| cs_height := cs_height cs; cs_commit_round := cs_commit_round cs; cs_votes := cs_votes cs;
+            cs_last_commit := Some vs; cs_state := cs_state cs |}
+  end.
+
+(* height := state.LastBlockHeight + 1; if height == 1 { height = state.InitialHeight } *)
+Definition next_height (ih : Z) (st : sstate) : Z :=
+  if st_height st + 1 =? 1 then ih else st_height st + 1.
+
+Inductive uts_pre := UP_panic | UP_ignore | UP_go.
+
+(* updateToState *)
+Definition update_to_state (ih : Z) (cs : cstate) (st : sstate) : option cstate :=
+  if (cs_commit_round cs >? -1) && (0 <? cs_height cs) && negb (cs_height cs =? st_height st)
+  then None                                                    (* "updateToState() expected state height of ..." *)
+  else
+    let pre :=
+      match cs_state cs with
+      | None => UP_go                                          (* cs.state.IsEmpty() *)
+      | Some old =>
+        if (st_height old >? 0) && negb (st_height old + 1 =? cs_height cs) then UP_panic
+                                                               (* "inconsistent cs.state.LastBlockHeight+1 ..." *)
+        else if (st_height old >? 0) && (cs_height cs =? ih) then UP_panic
+                                                               (* "... expected 0 for initial height" *)
+        else if st_height st <=? st_height old then UP_ignore  (* "ignoring updateToState()": newStep only *)
+        else UP_go
+      end in
+    match pre with
+    | UP_panic => None
+    | UP_ignore => Some cs
+    | UP_go =>
+      (* the switch that chooses cs.LastCommit; outer None = panic *)
+      let lc : option (option voteset) :=
+        if st_height st =? 0 then Some None                    (* very first commit should be empty *)
+        else if (cs_commit_round cs >? -1) && (match cs_votes cs with Some _ => true | None => false end)
+        then match cs_votes cs with
+             | Some v => match vs_maj23 v with
+                         | Some _ => Some (Some v)
+                         | None => None                        (* "wanted to form a commit, but precommits ... didn't have 2/3+" *)
+                         end
+             | None => None
+             end
+        else match cs_last_commit cs with
+             | None => None                                    (* "last commit cannot be empty after initial block" *)
+             | Some v => Some (Some v)
+             end in
+      match lc with
+      | None => None
+      | Some l =>
+        Some {| cs_height := next_height ih st; cs_commit_round := -1;
+                cs_votes := Some empty_voteset;                (* NewHeightVoteSet *)
+                cs_last_commit := l; cs_state := Some st |}
+      end
+    end.
+
+(* the guard shared by NewState and SwitchToConsensus:
+   "We have no votes, so reconstruct LastCommit from SeenCommit."  if state.LastBlockHeight > 0 *)
+Definition reconstruct_if_needed (store : list sentry) (cs : cstate) (st : sstate) : option cstate :=
+  if st_height st >? 0 then cs_reconstruct store cs st else Some cs.
+
+(* consensus.NewState(config, state, blockExec, blockStore, ...) *)
+Definition new_state (ih : Z) (store : list sentry) (st : sstate) : option cstate :=
+  match reconstruct_if_needed store cs_zero st with
+  | None => None
+  | Some cs => update_to_state ih cs st
+  end.
+
+(* Reactor.SwitchToConsensus(state, skipWAL) on the consensus state [cs] built at node start *)
+Definition switch_to_consensus (ih : Z) (store : list sentry) (cs : cstate) (st : sstate) : option cstate :=
+  match reconstruct_if_needed store cs st with
+  | None => None
+  | Some cs1 => update_to_state ih cs1 st
+  end.
+
+(* the whole hand-over of a node that started as [n0] and synced to [n] *)
+Definition handover_full (ih : Z) (n0 n : node) : option cstate :=
+  match new_state ih (n_store n0) (n_state n0) with
+  | None => None
+  | Some cs0 => switch_to_consensus ih (n_store n) cs0 (n_state n)
+  end.
+
 End Sync.
 
 
@@ -521,3 +641,5 @@ Arguments add_block {sig}. Arguments block_at {sig}. Arguments peek_two {sig}. A
 Arguments redo_request {sig}. Arguments is_caught_up {sig}. Arguments is_stopped {sig}.
 Arguments stop_peer {sig}. Arguments with_pool {sig}. Arguments panic {sig}. Arguments stop_reported {sig}.
 Arguments process_step {sig}. Arguments reject_step {sig}. Arguments next_state {sig}. Arguments step {sig}. Arguments run {sig}. Arguments handover {sig}.
+Arguments reconstruct_vs {sig}. Arguments cs_reconstruct {sig}. Arguments reconstruct_if_needed {sig}.
+Arguments new_state {sig}. Arguments switch_to_consensus {sig}. Arguments handover_full {sig}.
